@@ -6,6 +6,9 @@ import (
 	"io"
 	"net"
 	"net/http"
+	"os"
+	"strconv"
+	"strings"
 	"sync"
 	"time"
 )
@@ -138,6 +141,36 @@ type Loopback struct {
 	notify  chan struct{}
 }
 
+// KernelDrops returns the kernel's count of datagrams it discarded at this UDP listener because the socket buffer was
+// full (the "drops" column of /proc/net/udp; -1 when it cannot be read or the listener is not UDP).
+func (l *Loopback) KernelDrops() int {
+	if l.pc == nil {
+		return -1
+	}
+	ua, ok := l.pc.LocalAddr().(*net.UDPAddr)
+	if !ok {
+		return -1
+	}
+	b, err := os.ReadFile("/proc/net/udp")
+	if err != nil {
+		return -1
+	}
+	suffix := fmt.Sprintf(":%04X", ua.Port)
+	total := 0
+	for _, ln := range strings.Split(string(b), "\n")[1:] {
+		f := strings.Fields(ln)
+		if len(f) < 13 || !strings.HasSuffix(f[1], suffix) {
+			continue
+		}
+		d, err := strconv.Atoi(f[len(f)-1])
+		if err != nil {
+			return -1
+		}
+		total += d
+	}
+	return total
+}
+
 // NewLoopback starts a capturing listener ("tcp" or "udp").
 func NewLoopback(network string) (*Loopback, error) {
 	l := &Loopback{Network: network, notify: make(chan struct{}, 1)}
@@ -147,6 +180,9 @@ func NewLoopback(network string) (*Loopback, error) {
 			return nil, err
 		}
 		l.pc, l.Addr = pc, pc.LocalAddr().String()
+		if uc, ok := pc.(*net.UDPConn); ok {
+			_ = uc.SetReadBuffer(4 << 20) // room for a burst of a thousand datagrams while the reader is not scheduled
+		}
 		l.wg.Add(1)
 		go func() {
 			defer l.wg.Done()
